@@ -10,6 +10,7 @@ import (
 	"context"
 	stderrors "errors"
 	"fmt"
+	"runtime"
 	"sort"
 	"strings"
 	"sync/atomic"
@@ -60,7 +61,43 @@ func (t *refuseCommitTx) Commit(ctx context.Context, opts ...any) error {
 	return t.Tx.Commit(ctx, opts...)
 }
 
+// failRelPopulateDB refuses, once, the first iterator opened directly on the store over the
+// ontology's relationship table: that is the scan that populates the relationship indexes when
+// the table is opened. The indexes then report gorp.ErrIndexInvalid for good and every lookup
+// that would use them has to fall back to scanning the table (in the caller's transaction).
+type failRelPopulateDB struct {
+	kv.DB
+	armed atomic.Bool
+	fired atomic.Bool
+}
+
+var errPopulate = stderrors.New("verif: populate scan refused")
+
+func (f *failRelPopulateDB) OpenIterator(opts kv.IteratorOptions) (kv.Iterator, error) {
+	if f.armed.Load() && strings.Contains(string(opts.LowerBound), "Relationship") && calledFrom("runPopulate") && f.armed.CompareAndSwap(true, false) {
+		f.fired.Store(true)
+		return nil, errPopulate
+	}
+	return f.DB.OpenIterator(opts)
+}
+
+// calledFrom reports whether a function whose name contains fn is on the calling goroutine's stack.
+func calledFrom(fn string) bool {
+	pc := make([]uintptr, 48)
+	frames := runtime.CallersFrames(pc[:runtime.Callers(2, pc)])
+	for {
+		fr, more := frames.Next()
+		if strings.Contains(fr.Function, fn) {
+			return true
+		}
+		if !more {
+			return false
+		}
+	}
+}
+
 type fixture struct {
+	failPop *failRelPopulateDB
 	refuse  *refuseCommitDB
 	db      *gorp.DB
 	otg     *ontology.Ontology
@@ -74,14 +111,17 @@ type fixture struct {
 
 const rootUsername = "verif-root"
 
-func openFixture(ctx context.Context, withRoot bool) (fx *fixture, err error) {
+func openFixture(ctx context.Context, withRoot, failRelIndex bool) (fx *fixture, err error) {
 	fx = &fixture{}
+	opened := fx
 	defer func() {
 		if err != nil {
-			fx.close()
+			opened.close()
 		}
 	}()
-	fx.refuse = &refuseCommitDB{DB: memkv.New()}
+	fx.failPop = &failRelPopulateDB{DB: memkv.New()}
+	fx.failPop.armed.Store(failRelIndex)
+	fx.refuse = &refuseCommitDB{DB: fx.failPop}
 	fx.db = gorp.Wrap(fx.refuse)
 	fx.closers = append(fx.closers, fx.db.Close)
 	if fx.otg, err = ontology.Open(ctx, ontology.Config{DB: fx.db}); err != nil {
@@ -264,11 +304,18 @@ func execute(sc Script, rep *kit.Report) error {
 			withRoot = true
 		}
 	}
-	fx, err := openFixture(ctx, withRoot)
+	fx, err := openFixture(ctx, withRoot, sc.FailRelIndex)
 	if err != nil {
 		return kit.Fail("setup", "%v", err)
 	}
 	defer fx.close()
+	if sc.FailRelIndex {
+		if fx.failPop.fired.Load() {
+			rep.Class("relationship-index-failed-to-populate")
+		} else {
+			rep.Class("relationship-index-populate-scan-not-seen")
+		}
+	}
 	s := &sut{ctx: ctx, fx: fx, roleKey: map[string]uuid.UUID{}, polKey: map[string]uuid.UUID{}, polID: map[uuid.UUID]string{}}
 	defer func() {
 		if s.tx != nil {
